@@ -54,8 +54,12 @@ def base_scn(rng, N, iters, refine=False, hostile=False, scaled=None):
         # extreme magnitudes of the objective values (x 1e50, x 1e-50, + 1e9, integer-valued): what the console listener has to print
         obj = {"fam": "scaled", "base": obj, "mode": scaled}
     m = 10 if N == 1 else int(rng.integers(4, 9))
-    return {"N": N, "lower": lo, "upper": hi, "box": kind, "obj": obj, "r": float(rng.choice([2.0, 3.0, 4.0])),
-            "eps": 1e-3 if N == 1 else max(2.0 ** -m, 0.01), "iters": iters, "m": m, "refine": refine}
+    scn = {"N": N, "lower": lo, "upper": hi, "box": kind, "obj": obj, "r": float(rng.choice([2.0, 3.0, 4.0])),
+           "eps": 1e-3 if N == 1 else max(2.0 ** -m, 0.01), "iters": iters, "m": m, "refine": refine}
+    if rng.random() < 0.25:
+        # the documented SolverParameters.startPoint is filled in (a point strictly inside the box)
+        scn["start_point"] = [float(a + (b - a) * rng.uniform(0.1, 0.9)) for a, b in zip(lo, hi)]
+    return scn
 
 
 PAINTERS_1D = [("static", {"mode": "objective function"}), ("static", {"mode": "objective function", "isPointsAtBottom": True}),
